@@ -27,7 +27,7 @@ func init() {
 			Rule:        "case = one sequential history on a real temporary directory with FileSystemDataStore as both stores: acknowledged ingest+flush steps, flushes made to fail by the crash-point handler itself (it removes the .tmp just before the rename, so Close fails and the abort/tombstone path runs), single- and multi-group merges, repeated merges. The tagged verifFS callback fires after every filesystem mutation (reservation create/close, temp create, each write, sync, handle close, rename, directory sync, every remove of Abort/TombstoneFile/Update); at each one the directory is copied (= the process-crash image after that mutation, with the set of rows acknowledged so far) and fed to a shadow durability model (volatile namespace/inodes vs durable namespace and per-inode durable length: fsync(file) makes its bytes durable, fsync(dir) makes the namespace durable). From every crash point: the process-crash image, a torn-write image, and power-loss images (durable namespace plus a prefix or PRNG subset of the pending namespace operations; unsynced tails dropped, truncated or zero-filled). Every image is opened by a fresh FileSystemDataStore + engine: scan succeeds, every yielded file fully readable, match-all query Err == nil, superset of rows acked before the crash point, only ingested rows, none more often than ingested. evaluations = images opened; non-trivial = image taken strictly inside a flush/merge/abort (not at a quiescent point); distinct = distinct (history, crash point, variant); exhaustive over the mutation boundaries of each explored history, power-loss subsets sampled",
 			Assumptions: []string{"conservative POSIX durability model: a file's fsync does not persist its directory entry; directory fsync persists all namespace changes so far", "sequential client: the ack set at a crash point is the ledger state when the callback ran"},
 			Floors:      map[string]int64{"histories": 6, "crash_points": 300, "images_opened": 1000, "images_power_loss": 400, "event.update.remove": 8, "merge_commit_windows": 4}},
-		Cases: func(t string) int { return nQueries(t, 16, 300) },
+		Cases: func(t string) int { return nQueries(t, 32, 300) },
 		Run:   runC15,
 	})
 }
@@ -338,7 +338,7 @@ func c15Child(args []string) int {
 	}
 	var batches []*batch
 	rr := r.Split("rows")
-	ns := r.Range(4, 9)
+	ns := r.Range(6, 11)
 	for s := 0; s < ns; s++ {
 		pickStep := r.Intn(7)
 		if s < 2 {
@@ -359,7 +359,7 @@ func c15Child(args []string) int {
 			if fail {
 				curOp = "failflush"
 				failNextClose = true
-			} else if r.Chance(0.2) && s >= 2 {
+			} else if r.Chance(0.3) && s >= 2 {
 				curOp = "failwrite"
 				failWriteAt = r.Range(0, 5)
 			}
